@@ -645,6 +645,73 @@ def verbatim_name_rule(cx, rep, rid):
     rep.floor(rid, "name parameters of the printing context's methods", n, 5)
 
 
+def synthetic_name_digest_rule(cx, rep, rid):
+    """C16.11 (= C02.23).  A definition name that the runtime makes up for a STRUCTURE (the variants of a discriminated
+    union) is the identity of that structure inside a printing context: two different structures under one name means
+    the first one printed wins - the exported definitions depend on the call order and the other union's schema admits
+    what its validator rejects.  Decided: where a name handed to BOTH the ensure / store protocol and `getRef` is built
+    by a method of the class from its arguments, no argument derives from the 32-bit structural `hash(..)` - only a
+    collision-resistant digest (`hash256`) can stand for a structure.  (`hash()` of the constants `true` and `"true"`
+    is the same number: witness w_synthetic_name_weak_hash.)"""
+    from rules.ts_common import CODEGEN
+    mod = cx.ts(CODEGEN)
+    n = 0
+    for cname, c in sorted(mod.classes.items()):
+        meths = {mn: m["function"] for mn, m in c.methods.items() if m["function"].get("body") is not None}
+        for mname, fn in sorted(meths.items()):
+            for d in twalk(fn):
+                if d["type"] != "VariableDeclarator" or d.get("init") is None or not _ident(d["id"]):
+                    continue
+                init = unparen(d["init"])
+                if init.get("type") != "CallExpression":
+                    continue
+                cal = unparen(init["callee"])
+                if cal.get("type") != "MemberExpression" or cal["property"].get("type") != "Identifier" or cal["property"]["value"] not in meths:
+                    continue
+                if not (cal["object"].get("type") == "ThisExpression" or _ident(cal["object"]) == cname):
+                    continue
+                x = _ident(d["id"])
+                uses = [u for u in twalk(fn) if u["type"] == "CallExpression" and any(_ident(a["expression"]) == x for a in u["arguments"])]
+                if not any(ts_s(u["callee"]).endswith(".getRef") for u in uses) or len(uses) < 2:
+                    continue
+                # the name X is made by `builder` and used for a $ref and for the definition protocol
+                builder = cal["property"]["value"]
+                n += 1
+                weak = []
+
+                def origin(expr, owner_name, owner_fn, depth=0):
+                    for y in twalk(expr):
+                        if y["type"] == "CallExpression":
+                            yc = unparen(y["callee"])
+                            if yc.get("type") == "MemberExpression" and yc["property"].get("value") == "hash":
+                                weak.append((owner_name, ts_s(y)))
+                    if depth > 3:
+                        return
+                    ps = _params(owner_fn)
+                    for y in twalk(expr):
+                        nm = _ident(y)
+                        if nm is None:
+                            continue
+                        # local const alias
+                        for dd in twalk(owner_fn):
+                            if dd["type"] == "VariableDeclarator" and _ident(dd["id"]) == nm and dd.get("init") is not None and dd is not d:
+                                origin(dd["init"], owner_name, owner_fn, depth + 1)
+                        if nm in ps:
+                            pi = ps.index(nm)
+                            for on, of in meths.items():
+                                for call in twalk(of):
+                                    if call["type"] == "CallExpression":
+                                        cc = unparen(call["callee"])
+                                        if cc.get("type") == "MemberExpression" and cc["property"].get("value") == owner_name and pi < len(call["arguments"]):
+                                            origin(call["arguments"][pi]["expression"], on, of, depth + 1)
+                for a in init["arguments"]:
+                    origin(a["expression"], mname, fn)
+                rep.ob(rid, "%s.%s/digest" % (cname, builder), not weak,
+                       "the definition name built by %s.%s (used for the $ref and for the stored definition in %s.%s) derives from the 32-bit structural hash (%s): two different structures with the same 32-bit value - `{kind: \"on\", value: true} | {kind: \"off\"}` and `{kind: \"on\", value: \"true\"} | {kind: \"off\"}`, hash() of `true` and of `\"true\"` coincide - share their synthetic definitions inside one printing context: the union printed first decides the body, the exported definitions depend on the call order and the other union's schema admits what its validator rejects"
+                       % (cname, builder, cname, mname, "; ".join(sorted({w[1] for w in weak}))), mod.loc(d), sample={"class": cname, "builder": builder, "weak_digests": sorted({w[1] for w in weak})})
+    rep.floor(rid, "made-up definition names (built by a method, used for $ref and for the definition protocol)", n, 1)
+
+
 # ---------------------------------------------------------------------------------------------------------------------
 REGISTRY = {
     "C09": [("C09.20", "every route that registers an export payload registers it in the same namespaces", registration_routes_rule)],
@@ -654,7 +721,9 @@ REGISTRY = {
             ("C08.16", "no runtime class reads a property of the input through an own-only (hasOwnProperty-guarded) getter", own_only_read_rule)],
     "C03": [("C03.21", "a class with child validators hands back the input itself only where a test established it is not an object", composite_parse_rule)],
     "C13": [("C13.13", "a number literal is encoded with the shortest round-trip rendering only (injective on doubles)", number_encoding_rule)],
-    "C16": [("C16.10", "definition names reach the $ref text, the bookkeeping and the export verbatim", verbatim_name_rule)],
+    "C02": [("C02.23", "a made-up definition name stands for one structure only: it derives from a collision-resistant digest (= C16.11)", synthetic_name_digest_rule)],
+    "C16": [("C16.11", "a made-up definition name stands for one structure only: it derives from a collision-resistant digest", synthetic_name_digest_rule),
+            ("C16.10", "definition names reach the $ref text, the bookkeeping and the export verbatim", verbatim_name_rule)],
     "C05": [("C05.16", "an index signature's value type read as the type of one admitted key is optional", undeclared_key_reading_rule)],
 }
 
